@@ -124,8 +124,15 @@ func genShape(r *RNG, vs []string, vals []any, k int) []vcons {
 	}
 	// choose k increasing indices
 	idx := map[int]bool{}
+	// a third of the shapes take their versions from a narrow window of the sorted pool:
+	// neighbours in the order (same base, different pre-release / revision / pseudo-version form)
+	lo, span := 0, len(vs)
+	if r.Chance(35) && len(vs) > 2*k+2 {
+		span = 2*k + 2
+		lo = r.Intn(len(vs) - span + 1)
+	}
 	for len(idx) < k {
-		idx[r.Intn(len(vs))] = true
+		idx[lo+r.Intn(span)] = true
 	}
 	var is []int
 	for i := range idx {
